@@ -584,4 +584,121 @@ theorem prefix_strip (w n : Nat) (body : List Nat) (h : body.length < 2 ^ 32) :
   simp only [specDecodeLevelsV1, a, if_false, List.take_left' h4, List.drop_left' h4, hle,
     Nat.lt_irrefl, List.take_length]
 
+/-! ### the mirror of the repaired Go boolean decoder reads every well-formed run list -/
+
+theorem goUvarint_uvarint : ∀ (k i n : Nat) (rest : List Nat), n < 128 ^ k → i + k ≤ 9 →
+    goUvarint i (uvarint n ++ rest) = some (n, rest)
+  | 0, i, n, rest, hn, hi => by
+    have h0 : n = 0 := by simpa using hn
+    subst h0
+    have a : ¬ i = 10 := by omega
+    have b : ¬ (i = 9 ∧ 0 > 1) := by omega
+    rw [uvarint_small 0 (by decide)]
+    simp [goUvarint, a]
+  | k + 1, i, n, rest, hn, hi => by
+    have a : ¬ i = 10 := by omega
+    have a9 : ¬ i = 9 := by omega
+    rw [uvarint]
+    by_cases h : n < 128
+    · simp [h, goUvarint, a, a9]
+    · have hb : ¬ (n % 128 + 128 < 128) := by omega
+      have hdiv : n / 128 < 128 ^ k := by
+        rw [Nat.pow_succ] at hn
+        exact Nat.div_lt_of_lt_mul (by rw [Nat.mul_comm]; exact hn)
+      simp only [h, dite_false, List.cons_append, goUvarint, a, if_false, hb]
+      rw [goUvarint_uvarint k (i + 1) (n / 128) rest hdiv (by omega)]
+      simp; omega
+
+/-- the bits the Go decoder appends for one run -/
+def Run.goBits : Run → List Bool
+  | .rle c v => List.replicate c (v.headD 0 % 2 == 1)
+  | .bp _ p => bytesToBits p
+
+theorem Run.goBits_values (r : Run) (h : r.WF 1) : r.goBits.map b2n = r.values 1 := by
+  cases r with
+  | rle c v =>
+    simp only [Run.WF] at h
+    match v, h with
+    | [wd], _ =>
+      simp only [Run.goBits, Run.values, List.headD_cons, List.map_replicate, leNat]
+      congr 1
+      have : wd % 2 = 0 ∨ wd % 2 = 1 := by omega
+      rcases this with e | e <;> simp [b2n, e]
+  | bp g p =>
+    simp only [Run.WF] at h
+    simp only [Run.goBits, Run.values]
+    have : 8 * g = (bytesToBits p).length := by rw [bytesToBits_length, h]; omega
+    rw [this, unpackBits_one]
+
+theorem goLoop_serialize : ∀ (rs : List Run) (fuel : Nat) (bits : List Bool),
+    (∀ r ∈ rs, r.WF 1) → (∀ r ∈ rs, r.GoOK) → rs.length ≤ fuel →
+    goDecodeBitsLoop fuel bits (serialize rs) = .ok (bits ++ (rs.map Run.goBits).flatten)
+  | [], fuel, bits, _, _, _ => by
+    cases fuel <;> simp [goDecodeBitsLoop, serialize]
+  | r :: rs, 0, _, _, _, hf => by simp at hf
+  | r :: rs, f + 1, bits, hwf, hgo, hf => by
+    have hwf' : ∀ r ∈ rs, r.WF 1 := fun x hx => hwf x (by simp [hx])
+    have hgo' : ∀ r ∈ rs, r.GoOK := fun x hx => hgo x (by simp [hx])
+    have hr : r.WF 1 := hwf r (by simp)
+    have hg : r.GoOK := hgo r (by simp)
+    have hf' : rs.length ≤ f := by simpa using hf
+    have hne : (serialize (r :: rs)).isEmpty = false := by
+      have := serialize_length_ge (r :: rs)
+      cases hs : serialize (r :: rs) with
+      | nil => rw [hs] at this; simp at this
+      | cons _ _ => rfl
+    simp only [goDecodeBitsLoop, hne, Bool.false_eq_true, if_false]
+    rw [serialize_cons]
+    cases r with
+    | rle c v =>
+      simp only [Run.WF] at hr
+      simp only [Run.GoOK] at hg
+      match v, hr with
+      | [wd], _ =>
+        simp only [Run.bytes, List.append_assoc]
+        rw [goUvarint_uvarint 5 0 (2 * c) _ (by omega) (by omega)]
+        have h2 : 2 * c / 2 = c := by omega
+        have h0 : ¬ c = 0 := by omega
+        have hbig : ¬ c > 2 ^ 31 - 1 := by omega
+        have h1 : ¬ (2 * c % 2 = 1) := by omega
+        simp only [h2, h0, hbig, h1, if_false, List.singleton_append, List.headD_cons, List.drop_succ_cons,
+          List.drop_zero]
+        rw [goLoop_serialize rs f _ hwf' hgo' hf']
+        simp [Run.goBits]
+    | bp g p =>
+      simp only [Run.WF] at hr
+      simp only [Run.GoOK] at hg
+      simp only [Run.bytes, List.append_assoc]
+      rw [goUvarint_uvarint 5 0 (2 * g + 1) _ (by omega) (by omega)]
+      have h2 : (2 * g + 1) / 2 = g := by omega
+      have hp : p.length = g := by omega
+      by_cases h0 : g = 0
+      · subst h0
+        have : p = [] := by cases p <;> simp_all
+        subst this
+        simp only [h2, if_true, List.nil_append]
+        rw [goLoop_serialize rs f _ hwf' hgo' hf']
+        simp [Run.goBits, bytesToBits]
+      · have hbig : ¬ g > 2 ^ 31 - 1 := by omega
+        have h1 : (2 * g + 1) % 2 = 1 := by omega
+        have h3 : ¬ ((p ++ serialize rs).length < g) := by
+          rw [List.length_append]; omega
+        simp only [h2, h0, hbig, h1, h3, if_false, if_true]
+        rw [List.take_left' hp, List.drop_left' hp]
+        rw [goLoop_serialize rs f _ hwf' hgo' hf']
+        simp [Run.goBits]
+
+theorem goBits_values (rs : List Run) (hwf : ∀ r ∈ rs, r.WF 1) :
+    ((rs.map Run.goBits).flatten).map b2n = runsValues 1 rs := by
+  induction rs with
+  | nil => rfl
+  | cons r rs ih =>
+    simp only [List.map_cons, List.flatten_cons, List.map_append, runsValues_cons]
+    rw [Run.goBits_values r (hwf r (by simp)), ih (fun x hx => hwf x (by simp [hx]))]
+
+/-- `ValidRle 1` restricted to the streams the Go boolean decoder frames like the format does:
+no empty RLE run (Go does not consume its value byte), no run above `math.MaxInt32`. -/
+def ValidRleGo (xs bs : List Nat) : Prop :=
+  ∃ rs : List Run, (∀ r ∈ rs, r.WF 1) ∧ (∀ r ∈ rs, r.GoOK) ∧ runsValues 1 rs = xs ∧ serialize rs = bs
+
 end PqModel.Rle
